@@ -40,6 +40,7 @@ type c16Obs struct {
 	FinalShow    *c04Out
 	FinalDefault *c04Out
 	Crashed      bool
+	CrashOut     string // output of the run that crashed (replay aid)
 }
 
 func c16Crashed(r RunResult) bool {
@@ -77,6 +78,7 @@ func c16Evaluate(ctx *Ctx, dir string, tf c04Files, targets []string) ([]c04Find
 		r := RunPkglint(ctx, work, 20*time.Second, cfg.Args("fix")...)
 		if c16Crashed(r) {
 			obs.Crashed = true
+			obs.CrashOut = fmt.Sprintf("pass %d: exit %d signal %q\n%s%s", p, r.Exit, r.Signal, r.Stdout, firstLines(r.Stderr, 12))
 			return nil, obs
 		}
 		after := c04ReadTree(work)
@@ -515,6 +517,9 @@ func c16ReplayWhole(ctx *Ctx, res *Result, rep map[string]any) {
 	dir := filepath.Join(ctx.Work, "c16replay")
 	fs, obs := c16Evaluate(ctx, dir, tf, targets)
 	res.Evaluations++
+	if obs.Crashed {
+		fmt.Printf("== a run crashed (C01 territory; such trees are skipped by this check): %s\n", obs.CrashOut)
+	}
 	for p, pass := range obs.Passes {
 		fmt.Printf("== pass %d: pkglint %s   (exit %d)\n%s-- rewritten: %v\n", p+1, strings.Join(c04Cfg{Targets: targets}.Args("fix"), " "), pass.Res.Exit, pass.Res.Stdout, pass.Changed)
 	}
